@@ -198,4 +198,56 @@ theorem sim_decode_all_marker (fuel : Nat) :
           | sim_step | split | dsimp only
           | (simp only [Nat.succ_eq_add_one, Nat.add_right_cancel_iff] at *; subst_vars))
 
+/-! a description without DYNAMIC-ENDMARKER-FIELD is marker safe: `sim_decode_all_marker` subsumes `sim_decode_all` -/
+mutual
+theorem Dop.safe_of_free : (d : Dop) → d.markerFree = true → d.markerSafe = true
+  | .simple .., _ => rfl
+  | .struct _ ps, h => by
+    simp only [Dop.markerFree] at h; simp only [Dop.markerSafe]; exact params_safe_of_free ps h
+  | .staticField _ _ item, h => by
+    simp only [Dop.markerFree] at h; simp only [Dop.markerSafe]; exact Dop.safe_of_free item h
+  | .dynLenField _ _ _ cd item, h => by
+    simp only [Dop.markerFree, Bool.and_eq_true] at h; simp only [Dop.markerSafe, Bool.and_eq_true]
+    exact ⟨Dop.safe_of_free cd h.1, Dop.safe_of_free item h.2⟩
+  | .endMarkerField .., h => by simp [Dop.markerFree] at h
+  | .eopField _ _ item, h => by
+    simp only [Dop.markerFree] at h; simp only [Dop.markerSafe]; exact Dop.safe_of_free item h
+  | .mux _ _ _ sd cases none, h => by
+    simp only [Dop.markerFree, Bool.and_eq_true] at h; simp only [Dop.markerSafe, Bool.and_eq_true]
+    exact ⟨⟨Dop.safe_of_free sd h.1.1, cases_safe_of_free cases h.1.2⟩, trivial⟩
+  | .mux _ _ _ sd cases (some (_, none)), h => by
+    simp only [Dop.markerFree, Bool.and_eq_true] at h; simp only [Dop.markerSafe, Bool.and_eq_true]
+    exact ⟨⟨Dop.safe_of_free sd h.1.1, cases_safe_of_free cases h.1.2⟩, trivial⟩
+  | .mux _ _ _ sd cases (some (_, some d)), h => by
+    simp only [Dop.markerFree, Bool.and_eq_true] at h; simp only [Dop.markerSafe, Bool.and_eq_true]
+    exact ⟨⟨Dop.safe_of_free sd h.1.1, cases_safe_of_free cases h.1.2⟩, Dop.safe_of_free d h.2⟩
+  | .unsupported, _ => rfl
+  | .dtc .., _ => rfl
+theorem cases_safe_of_free : (cs : List MuxCaseD) → casesMarkerFree cs = true → casesMarkerSafe cs = true
+  | [], _ => rfl
+  | .mk _ _ _ none :: cs, h => by
+    simp only [casesMarkerFree, Bool.and_eq_true] at h; simp only [casesMarkerSafe, Bool.and_eq_true]
+    exact ⟨trivial, cases_safe_of_free cs h.2⟩
+  | .mk _ _ _ (some d) :: cs, h => by
+    simp only [casesMarkerFree, Bool.and_eq_true] at h; simp only [casesMarkerSafe, Bool.and_eq_true]
+    exact ⟨Dop.safe_of_free d h.1, cases_safe_of_free cs h.2⟩
+theorem Param.safe_of_free : (p : Param) → p.markerFree = true → p.markerSafe = true
+  | .mk _ _ _ k, h => by
+    simp only [Param.markerFree] at h; simp only [Param.markerSafe]; exact PKind.safe_of_free k h
+theorem PKind.safe_of_free : (k : PKind) → k.markerFree = true → k.markerSafe = true
+  | .physConst d _, h => by simp only [PKind.markerFree] at h; simp only [PKind.markerSafe]; exact Dop.safe_of_free d h
+  | .value d _, h => by simp only [PKind.markerFree] at h; simp only [PKind.markerSafe]; exact Dop.safe_of_free d h
+  | .lengthKey d, h => by simp only [PKind.markerFree] at h; simp only [PKind.markerSafe]; exact Dop.safe_of_free d h
+  | .codedConst .., _ => rfl
+  | .reserved .., _ => rfl
+  | .matchingReq .., _ => rfl
+  | .nrcConst .., _ => rfl
+  | .unsupported, _ => rfl
+theorem params_safe_of_free : (ps : List Param) → paramsMarkerFree ps = true → paramsMarkerSafe ps = true
+  | [], _ => rfl
+  | p :: ps, h => by
+    simp only [paramsMarkerFree, Bool.and_eq_true] at h; simp only [paramsMarkerSafe, Bool.and_eq_true]
+    exact ⟨Param.safe_of_free p h.1, params_safe_of_free ps h.2⟩
+end
+
 end OdxVerif.Codec
